@@ -8,3 +8,4 @@ for id in "${@:-C01 C02 C03 C04 C05 C06 C07 C08 C09 C10 C11 C12 C13 C14 C15 C16 
   [ $rc -ne 0 ] && echo "$out" | grep -E "VIOLATION|oracle=|HARNESS" | head -5
  done
 done
+exit 0
